@@ -37,9 +37,11 @@ static Reg r_fixseg("ixm_fixseg", [](const Args& a) {
     if (meets && !(r.x >= -tol && r.x <= sx + tol && r.y >= -tol && r.y <= sy + tol)) bad("fixsegment-inside", "the coincidence line crosses the segment rectangle but the result is outside");
   }
 });
-inline void generate(Rng& r, bool thorough) {
+inline void generate(Rng& r, bool thorough, int K = 1) {
+  auto Q = [&](long v) { return std::max<long>(1, v / K); };   // K slices: the orchestrating generate() runs the parts round-robin
+
   auto val = [&]() { int k = r.irange(0, 5); return k == 0 ? double(r.irange(-5, 5)) : k == 1 ? 0.0 : k == 2 ? r.range(-2e7, 2e7) : k == 3 ? r.range(-1e3, 1e3) : k == 4 ? 1e6 * r.irange(-20, 20) : r.range(-4e7, 4e7); };
-  int N = thorough ? 20000 : 1500;
+  int N = int(Q(thorough ? 20000 : 1500));
   for (int i = 0; i < N; ++i) {
     int c = r.irange(-1, 1), pc = r.irange(0, 3) ? c : r.irange(-1, 1);
     stratum("ixm:fixcoincident"); run("ixm_fixc", {hx(val()), hx(val()), hx(val()), hx(val()), std::to_string(pc), std::to_string(c)});
